@@ -216,3 +216,8 @@ def run(ck):
               "the attribute names of a cookie are recognised with match_string, which compares only after it has established that as many "
               "bytes as the name is long are left in the text: cookie text that ends in the beginning of an attribute name is not read past its end",
               key_pred=lambda k: k.startswith("match_string") or k.startswith("match_raw"), min_instances=2)
+
+    # ---------------- value classes do not point into themselves ----------------
+    lib.self_view_rule(ck, "C17-R7", ['Pistache::Http::Cookie', 'Pistache::Http::CookieJar'],
+                       "cookies and jars are copied freely (CookieJar::add copies the cookie, iterators hand out copies)")
+
